@@ -62,7 +62,7 @@ pub fn toks_str(ts: &TokenStream) -> String {
     format!("(toks {})", v.join(" "))
 }
 
-fn expr(e: &syn::Expr) -> String {
+pub fn expr(e: &syn::Expr) -> String {
     let cls = match e {
         syn::Expr::Lit(syn::ExprLit { lit: syn::Lit::Str(l), .. }) => format!("(litstr {})", hex(&l.value())),
         syn::Expr::Lit(_) => "(lit)".to_string(),
@@ -79,7 +79,7 @@ fn expr(e: &syn::Expr) -> String {
     format!("(e {} {} {} {})", cls, sp(e.span()), hex(&e.to_token_stream().to_string()), toks_str(&e.to_token_stream()))
 }
 
-fn path(p: &syn::Path) -> String {
+pub fn path(p: &syn::Path) -> String {
     let first = p.segments.first().map(|s| sp(s.ident.span())).unwrap_or("none".into());
     let last = p.segments.last().map(|s| sp(s.ident.span())).unwrap_or("none".into());
     format!("(path {} {} {} {} {})", first, last, sp(p.span()), hex(&p.to_token_stream().to_string()), toks_str(&p.to_token_stream()))
@@ -220,4 +220,79 @@ pub fn locations(p: &Pattern, out: &mut Vec<String>) {
         Pattern::Map(x) => x.entries.iter().for_each(|(_, v)| locations(v, out)),
         _ => {}
     }
+}
+
+/// Token trees with everything the parser model looks at.
+///   (i hex(name) sp)   (p hex(char) joint sp)   (l kind hex(text) sp extra)   (g delim sp spopen spclose tt...)
+/// kind: int (extra = base-10 digits or `bad`), float, str (extra = hex(value)), other.
+pub fn tts(ts: &TokenStream) -> String {
+    let mut out = Vec::new();
+    for tt in ts.clone() {
+        out.push(match tt {
+            TokenTree::Group(g) => {
+                let d = match g.delimiter() {
+                    Delimiter::Parenthesis => "paren",
+                    Delimiter::Brace => "brace",
+                    Delimiter::Bracket => "bracket",
+                    Delimiter::None => "none",
+                };
+                let ds = g.delim_span();
+                format!("(g {} {} {} {} {})", d, sp(g.span()), sp(ds.open()), sp(ds.close()), tts(&g.stream()))
+            }
+            TokenTree::Ident(i) => format!("(i {} {})", hex(&i.to_string()), sp(i.span())),
+            TokenTree::Punct(p) => format!("(p {} {} {})", hex(&p.as_char().to_string()), if p.spacing() == proc_macro2::Spacing::Joint { 1 } else { 0 }, sp(p.span())),
+            TokenTree::Literal(l) => {
+                let text = l.to_string();
+                if let Ok(li) = syn::parse_str::<syn::LitInt>(&text) {
+                    format!("(l int {} {} {})", hex(&text), sp(l.span()), if li.base10_digits().is_empty() { "bad".to_string() } else { li.base10_digits().to_string() })
+                } else if syn::parse_str::<syn::LitFloat>(&text).is_ok() {
+                    format!("(l float {} {} -)", hex(&text), sp(l.span()))
+                } else if let Ok(ls) = syn::parse_str::<syn::LitStr>(&text) {
+                    format!("(l str {} {} {})", hex(&text), sp(l.span()), hex(&ls.value()))
+                } else {
+                    format!("(l other {} {} -)", hex(&text), sp(l.span()))
+                }
+            }
+        });
+    }
+    out.join(" ")
+}
+
+/// Oracle tables: what `syn` answers at every position of every token sequence.
+///   (o path index kind consumed DUMP)   kind: E (Expr), P (Path), C (ExprClosure; DUMP carries the arity in its class)
+pub fn oracle(ts: &TokenStream, path: &mut Vec<usize>, out: &mut Vec<String>) {
+    use syn::parse::Parser;
+    let v: Vec<TokenTree> = ts.clone().into_iter().collect();
+    let n = v.len();
+    for i in 0..n {
+        let suffix: TokenStream = v[i..].iter().cloned().collect();
+        let p = path.iter().map(|x| x.to_string()).collect::<Vec<_>>().join(".");
+        let p = if p.is_empty() { "-".to_string() } else { p };
+        let count = |rest: &TokenStream| n - i - rest.clone().into_iter().count();
+        let pe = |input: syn::parse::ParseStream| -> syn::Result<(syn::Expr, TokenStream)> { Ok((input.parse()?, input.parse()?)) };
+        if let Ok((e, rest)) = pe.parse2(suffix.clone()) {
+            out.push(format!("(o {} {} E {} {})", p, i, count(&rest), expr(&e)));
+        }
+        let pp = |input: syn::parse::ParseStream| -> syn::Result<(syn::Path, TokenStream)> { Ok((input.parse()?, input.parse()?)) };
+        if let Ok((e, rest)) = pp.parse2(suffix.clone()) {
+            out.push(format!("(o {} {} P {} {})", p, i, count(&rest), path_dump(&e)));
+        }
+        let pc = |input: syn::parse::ParseStream| -> syn::Result<(syn::ExprClosure, TokenStream)> { Ok((input.parse()?, input.parse()?)) };
+        if let Ok((c, rest)) = pc.parse2(suffix.clone()) {
+            let inputs_sp = {
+                use syn::spanned::Spanned;
+                sp(c.inputs.span())
+            };
+            out.push(format!("(o {} {} C {} {} {})", p, i, count(&rest), inputs_sp, expr(&syn::Expr::Closure(c))));
+        }
+        if let TokenTree::Group(g) = &v[i] {
+            path.push(i);
+            oracle(&g.stream(), path, out);
+            path.pop();
+        }
+    }
+}
+
+fn path_dump(p: &syn::Path) -> String {
+    path(p)
 }
